@@ -536,6 +536,13 @@ class Sql:
         cols = ps['cols']
         page = SymSeq(L, lambda idx: self.row_tuple(it, Table(st), cols, z3.Select(s, idx)), kind='list', tag='page')
         page.rows, page.member, page.stmt, page.params = s, inpage, ps, params
+        page.pos = pos
+        w_sel = dict(st.world)
+
+        class _Tsel:
+            w = w_sel
+        page.elem_facts = lambda idx: z3.And(self.where_at(it, _Tsel, ps, params, z3.Select(s, idx)),
+                                             z3.Select(inpage, z3.Select(s, idx)), z3.Select(pos, z3.Select(s, idx)) == idx)
         st.effect('SELECT_PAGE', page=page)
         st.ghost['last_page'] = page
         return page
